@@ -763,6 +763,57 @@ def check_C06(ctx, prop="C06"):
                     ctx.violation("setbyuser", "spec %r argv %r env %r: %s is flagged as set by the user, but once the tokens bound to ARG (%r) are "
                                   "set aside no token of the line names it" % (c["root"]["spec"], c["argv"], c["env"], d["name"], a["values"].get("app|ARG")), case=c)
         ctx.stream("SetByUser inside option groups", 0, accepted=nacc)
+    # SetByUser of declarations that share one Go variable (the ...Ptr forms), each with its own flag: the flag of a declaration
+    # is true iff the line gives THAT declaration a value, whatever its siblings were given and in whichever order the
+    # library writes the values into the shared variable -- implementation only (the model has no shared destinations),
+    # judged by the property text
+    if prop == "C15":
+        shd = []
+        for kind, vals in (("int", ["1", "2", "3", "4"]), ("string", ["p", "q", "r", "s"]), ("strings", ["p", "q", "r", "s"])):
+            rep = "..." if kind == "strings" else ""
+            for shape in ("oo", "oa", "aa", "ooa", "ooaa", "ooo"):
+                names_o, names_a = ["a add", "x extra", "c"], ["SRC", "DST"]
+                no = shape.count("o")
+                na = len(shape) - no
+                for envd in (None, 0):
+                    decls = []
+                    for k in range(no):
+                        decls.append(gen.mkopt(kind, names_o[k], destshare="d", sbu=True, env="VE_S" if envd == k else ""))
+                    for k in range(na):
+                        decls.append(gen.mkarg(kind, names_a[k], destshare="d", sbu=True))
+                    spec = " ".join(["[-%s%s]" % (n.split()[0], rep) for n in names_o[:no]] + ["[%s]" % n for n in names_a[:na]])
+                    for given_o in itertools.product((0, 1, 2), repeat=no):
+                        if kind != "strings" and 2 in given_o:
+                            continue
+                        for n_pos in range(na + 1):
+                            for rev in (False, True):
+                                pieces = []
+                                for k in range(no):
+                                    for j in range(given_o[k]):
+                                        pieces.append(["-" + names_o[k].split()[0], vals[(k + j) % 4]])
+                                if rev:
+                                    pieces.reverse()
+                                argv = [t for p_ in pieces for t in p_] + [vals[3 - k] for k in range(n_pos)]
+                                want = {"app|" + names_o[k]: given_o[k] > 0 for k in range(no)}
+                                want.update({"app|" + names_a[k]: k < n_pos for k in range(na)})
+                                shd.append({"op": "run", "env": {"VE_S": vals[0]} if envd is not None else {}, "version": None, "argv": argv,
+                                            "root": gen.mkcmd("app", decls=copy.deepcopy(decls), spec=spec, policy=0), "_want": want})
+        number(shd, start=len(cases) + 300000)
+        rs = core.run_impl(shd)
+        for c in shd:
+            ctx.count(c)
+            a = core.obs_impl(rs[c["id"]])
+            if not accepted(a):
+                ctx.violation("setbyuser", "declarations sharing one variable: valid invocation spec %r argv %r env %r was not accepted: %r"
+                              % (c["root"]["spec"], c["argv"], c["env"], a["outcome"]), case=c)
+                continue
+            for key, w in c["_want"].items():
+                if a["sbu"].get(key) != w:
+                    ctx.violation("setbyuser", "declarations sharing one variable (the ...Ptr forms), spec %r argv %r env %r: SetByUser of %r is %r, "
+                                  "the command line %s it a value" % (c["root"]["spec"], c["argv"], c["env"], key.split("|")[1], a["sbu"].get(key),
+                                                                      "gives" if w else "does not give"), case=c)
+                    break
+        ctx.stream("SetByUser of declarations sharing one variable", len(shd))
     ctx.stream("kinds x opt/arg x defaults x env lists x cli counts", 0, k1_shape=k1)
     ctx.sample({"kind": "ints", "default": ["4", "5"], "env": {"VE0": "", "VE1": "7, 8"}, "argv": [], "expected": ["7", "8"]})
     return ("7 built-in kinds x option/argument x 2 defaults x environment lists of length 0-3 over {unset, empty, valid, "
